@@ -73,3 +73,19 @@ package interp
 //@   requires [assume] f != nil && n != nil && n.anc != nil
 //@   panics when true
 //@   exits deferred-panic-waits-for-function-exit: n.anc.kind == deferStmt ==> !panicking
+
+// The same deferred function of runCfg, for C10: a frame stopped by a cancellation still issues ALL its
+// deferred calls when its loop ends — the deferred host calls (mu.Unlock, wg.Done, Close) are what keeps
+// the definitions of earlier evaluations usable after the cancelled one.  No run-id gate in this loop.
+//@ lit runCfg calls:originalExecNode () ()
+//@   props C10
+//@   opt safety = off
+//@   opt ghost-calls = true
+//@   opt opaque-calls = *
+//@   opt preserve = F_interp_frame_deferred, F_interp_frame_id, F_interp_Interpreter_id, SE_Int___reflect_Value, SE_Int_reflect_Value
+//@   requires f != nil
+//@   panics when true
+//@   ensures every-deferred-call-is-issued-whatever-the-run-id: callCount == len(f.deferred) && forall(k, 0, len(f.deferred), calledAt(k) == f.deferred[k][0])
+//@   loop 1 index i
+//@   invariant trace-is-prefix: callCount == i && forall(k, 0, i, calledAt(k) == f.deferred[k][0])
+//@   invariant deferred-stable: f.deferred == old(f.deferred)
